@@ -123,11 +123,11 @@ def run(ctx):
     small_scope_cases(ctx)
     n_models = (250 if ctx.quick else 1200) * (3 if ctx.search else 1)
     for _ in range(n_models):
-        a, o, t = gen_valid(ctx.rng, ctx.quick, wide_p=0.0, empty_p=0.04)
+        a, o, t = gen_valid(ctx.rng, ctx.quick, wide_p=0.0, empty_p=0.08)
         do_case(ctx, {"ast": a})
     # a stream rich in nested negations over boolean leaves (Not / Imply / XNor of compounds, several levels)
     for _ in range(n_models):
-        a, o, t = gen_valid(ctx.rng, ctx.quick, wide_p=0.0, int_p=0.0, bool_only=True, classes=SAFE_CLASSES, max_arity=3)
+        a, o, t = gen_valid(ctx.rng, ctx.quick, wide_p=0.0, int_p=0.0, bool_only=True, classes=SAFE_CLASSES, max_arity=3, empty_p=0.06)
         do_case(ctx, {"ast": a})
     # nodes over compound *and* integer-atom children (conjunction shapes among them): sums where an integer leaf can
     # compensate for a false sub-proposition
